@@ -20,7 +20,10 @@ CHECKS = {
         "exhaustively within small grids: invariants FirstAtZero/MediumChain/AtMostOneStop/OnePrimary and the frame conditions as "
         "action properties. TLC-generated behaviours (exhaustive dump to a depth bound + simulation) are replayed on the real Optic with "
         "exact state comparison after every call, and random float histories over every surface kind, variables of every type, pickups, "
-        "solves and image_solve are validated call by call by spec/Trace_Lens.tla in exact dyadic arithmetic. Bounded, not a proof: "
+        "solves and image_solve are validated call by call by spec/Trace_Lens.tla in exact dyadic arithmetic. update() is modelled as the "
+        "multi-step process the code runs (spec/UpdateOrder.tla over exact rationals: one action per pickup and per solve application): "
+        "SolvesHold, PickupsHold for compatible pickup/solve sets, Idempotent, frame conditions, termination; two negative controls per run "
+        "(list-order solves, unconditional pickups) must be refuted; every idle state TLC reaches is replayed on a real Optic. Bounded, not a proof: "
         "histories beyond the explored depth/grids are sampled.",
    technique="TLA+ abstract machine + TLC exhaustive MC; spec->code behaviour replay; code->spec trace validation (dyadic arithmetic)",
    ref="6 (C01)"),
